@@ -160,6 +160,8 @@ CHECKS["C01"] = {
         {"name": "TestHistories", "quick": 600, "thorough": 6000, "shards": 16, "timeout_q": 400},
         {"name": "TestHistoriesUni", "quick": 400, "thorough": 4000, "shards": 16, "timeout_q": 400},
         {"name": "TestKnownFindings", "quick": 1, "thorough": 1, "shards": 1},
+        {"name": "TestCrashHistories", "quick": 40, "thorough": 400, "shards": 16, "timeout_q": 400},
+        {"name": "TestCrashHistoriesUni", "quick": 60, "thorough": 500, "shards": 16, "timeout_q": 400},
     ],
 }
 
